@@ -294,6 +294,64 @@ def pair_in_one_message(r):
     return dict(cfg=tuple(cfg), insts=[(1, conv.s_service(svc), [])], draws=[0] * 8, events=events, end=end, rev=r.random() < 0.3, fuel=20000)
 
 
+def two_channels_one_instant(r):
+    """A subscriber known on BOTH channels; in ONE instant a multicast message of it reveals its reboot (a FindService or an
+    empty message) and a unicast message carries its Subscribe - in both arrival orders, with the unicast channel known
+    before or not (so the Subscribe's own message reveals the reboot too, or does not), the subscription live before or not."""
+    from . import conv
+    cfg = list(timings(r))
+    cfg[6] = T
+    cfg[11] = r.choice([0, 5 * MS])
+    svc = SERVICES[0]
+    who = r.choice([1, 2])
+    p = Peer(who)
+    events = [(0, (1, [17, 1])), (0, (1, [0]))]
+    t0 = T // 2
+    fe = C.Service(0x3333).create_find_entry(3)
+    events.append((t0, (0, who, True, p.datagram([fe] if r.random() < 0.5 else [], True))))          # known on the multicast channel
+    eg = r.choice([5, 6])
+    live = r.random() < 0.6
+    if live or r.random() < 0.5:
+        es = [sub_entry(r, svc, eg, r.choice([3, 0xFFFFFF]), 0, 1, ep_n=who)] if live else [fe]
+        events.append((t0 + T // 4, (0, who, False, p.datagram(es, False))))                            # known on the unicast channel
+    t1 = t0 + r.choice([T // 2, T, T + 1])
+    p.reboot()
+    mcd = (t1, (0, who, True, p.datagram([fe] if r.random() < 0.5 else [], True)))
+    ucd = (t1, (0, who, False, p.datagram([sub_entry(r, svc, eg, r.choice([3, 0xFFFFFF]), 0, 1, ep_n=who)], False)))
+    events += [mcd, ucd] if r.random() < 0.7 else [ucd, mcd]
+    if r.random() < 0.3:
+        events.append((t1 + T // 2, (0, who, False, p.datagram([sub_entry(r, svc, eg, 3, 0, 1, ep_n=who)], False))))
+    return dict(cfg=tuple(cfg), insts=[(1, conv.s_service(svc), [])], draws=[0] * 8, events=events, end=t1 + 5 * T, rev=r.random() < 0.3, fuel=20000)
+
+
+def link_local_twins(r):
+    """Two subscribers / requesters whose sockaddrs agree in host and port and differ in the IPv6 scope id (two links), and
+    an ordinary third one: Subscribes and FindServices of all of them in one instant and within one collection window -
+    every answer goes to the sender of its request."""
+    from . import conv
+    cfg = list(timings(r))
+    cfg[6] = T
+    cfg[11] = r.choice([5 * MS, 5 * MS, 20 * MS, 0])
+    svc = SERVICES[0]
+    peers = {a: Peer(a) for a in (301, 302, 1)}
+    events = [(0, (1, [17, 1])), (0, (1, [0]))]
+    t = T + r.choice([0, T // 4])
+    for _ in range(r.randint(1, 3)):
+        order = r.sample([301, 302, 1], r.choice([2, 3, 3]))
+        for a in order:
+            c = r.random()
+            if c < 0.6:
+                es = [sub_entry(r, svc, r.choice([5, 6, 77]), r.choice([3, 0xFFFFFF, 0]), 0, 1, ep_n=1 + a % 3)]
+            elif c < 0.85:
+                es = [r.choice([SERVICES[0], C.Service(0x1111)]).create_find_entry(3)]
+            else:
+                es = [sub_entry(r, svc, 5, 3, 0, 1, ep_n=1 + a % 3), C.Service(0x1111).create_find_entry(3)]
+            events.append((t, (0, a, False, peers[a].datagram(es, False))))
+            t += r.choice([0, 0, 1, cfg[11] // 2 if cfg[11] else 1])
+        t += r.choice([T // 4, T])
+    return dict(cfg=tuple(cfg), insts=[(1, conv.s_service(svc), [])], draws=[0] * 8, events=events, end=t + 4 * T, rev=r.random() < 0.3, fuel=20000)
+
+
 def defer_some_api(r, events, p=0.15):
     """An application call that is the only call of its instant is made, now and then, one to three loop iterations INTO the
     instant (ApiSoon, codes 22-24): behind whatever the datagrams of that instant trigger."""
@@ -359,7 +417,7 @@ def subscriber_scenario(r, length=None):
     return dict(cfg=tuple(cfg), insts=[], draws=[], events=events, end=end, rev=r.random() < 0.3, fuel=20000)
 
 
-def queue_scenario(r, length=None):
+def queue_scenario(r, length=None, dests=None):
     """queue_send requests for several destinations (C15)."""
     cfg = list(timings(r))
     cfg[11] = r.choice([0, 1, 5 * MS, 5 * MS])
@@ -379,7 +437,7 @@ def queue_scenario(r, length=None):
         else:
             t = r.randrange(0, T)
         t = max(0, t)
-        dest = r.choice([None, [1], [2], [3]])
+        dest = r.choice([None, [1], [2], [3]] if dests is None else dests)
         burst = r.choice([1, 1, 1, 2, 5, 17, 40]) if r.random() < 0.5 else 1
         for _ in range(burst):
             svc = r.choice(SERVICES)
